@@ -87,10 +87,16 @@ feed:
 		}
 	}
 	if status == "waiting" {
+		// a shutdown signal was delivered: Handle has to return, however loaded the machine is;
+		// without one it has to keep waiting, and a short look suffices
+		patience := 30 * time.Millisecond
+		if strings.ContainsAny(sigs, "iqt") {
+			patience = 10 * time.Second
+		}
 		select {
 		case st := <-res:
 			status = I(st)
-		case <-time.After(30 * time.Millisecond):
+		case <-time.After(patience):
 			// still waiting for a shutdown signal, as it should without one; stop the handler
 			mu.Lock()
 			snapshot := strings.Join(log, ",")
@@ -221,6 +227,23 @@ func (h *rwHarness) setOutcome(d byte) {
 	}
 }
 
+// waitQuiet returns when the trace has not grown for a few milliseconds (a late Refresh that
+// has started is then complete), or after 300 ms
+func (h *rwHarness) waitQuiet() {
+	last, same := -1, 0
+	for i := 0; i < 1000 && same < 3; i++ {
+		time.Sleep(300 * time.Microsecond)
+		h.mu.Lock()
+		n := len(h.trace)
+		h.mu.Unlock()
+		if n == last {
+			same++
+		} else {
+			last, same = n, 0
+		}
+	}
+}
+
 func (h *rwHarness) waitArmed() bool {
 	select {
 	case <-h.armed:
@@ -231,7 +254,30 @@ func (h *rwHarness) waitArmed() bool {
 }
 
 // rw: args = RefreshOnShutdown, schedule answers (ms), script
+// execRW runs the script once.  When a tick offered right after Shutdown has returned was still
+// taken by the loop (Shutdown does not wait for the loop: the recorded select race), the script
+// is run again, now leaving the loop goroutine 20, 60 and 150 ms to see the closed channel
+// before the tick is offered: a loop that takes the tick every time has not been stopped at all,
+// which is a different defect and gets a different marker.
 func execRW(args []string) string {
+	out := execRWOnce(args, 0)
+	const late = " spec=bad:refresh-after-shutdown"
+	if strings.HasSuffix(out, late) && !strings.Contains(args[2], "x") {
+		persistent := true
+		for _, settle := range []time.Duration{20 * time.Millisecond, 60 * time.Millisecond, 150 * time.Millisecond} {
+			if !strings.HasSuffix(execRWOnce(args, settle), late) {
+				persistent = false
+				break
+			}
+		}
+		if persistent {
+			out += "-persistent"
+		}
+	}
+	return out
+}
+
+func execRWOnce(args []string, settle time.Duration) string {
 	h := &rwHarness{armed: make(chan struct{}, 4), entered: make(chan struct{}, 1)}
 	for _, d := range SplitList(args[1], ",") {
 		h.durs = append(h.durs, time.Duration(Atoi(d))*time.Millisecond)
@@ -269,12 +315,21 @@ func execRW(args []string) string {
 			h.setOutcome(ev[1])
 			ch := h.timer
 			h.mu.Unlock()
+			// before Shutdown the loop is (about to be) in its select: give it time on a loaded
+			// machine; after Shutdown nobody should receive, a short wait suffices
+			patience := 15 * time.Millisecond
+			if !shut {
+				patience = 5 * time.Second
+			}
 			select {
 			case ch <- time.Time{}:
 				if !h.waitArmed() {
 					return "STUCK-after-tick " + strings.Join(h.trace, " ")
 				}
-			case <-time.After(15 * time.Millisecond):
+			case <-time.After(patience):
+				if !shut {
+					return "STUCK-tick-not-taken " + strings.Join(h.trace, " ")
+				}
 				// nobody receives: the loop has returned
 			}
 		case 's':
@@ -282,6 +337,7 @@ func execRW(args []string) string {
 				return "SCRIPT-ERROR-double-shutdown"
 			}
 			doShutdown(ev[1])
+			time.Sleep(settle)
 		case 'x':
 			// Shutdown while a Refresh started by a tick is running; the next timer is already ready
 			if shut {
@@ -313,6 +369,7 @@ func execRW(args []string) string {
 			case <-h.armed:
 			case <-time.After(10 * time.Millisecond):
 			}
+			h.waitQuiet()
 		}
 	}
 	if !shut {
@@ -321,7 +378,7 @@ func execRW(args []string) string {
 		h.mu.Unlock()
 		_ = w.Shutdown(shutCtx)
 	}
-	time.Sleep(time.Millisecond)
+	h.waitQuiet()
 	h.mu.Lock()
 	defer h.mu.Unlock()
 	out := strings.Join(h.trace, " ")
